@@ -10,6 +10,7 @@ import (
 	"os/exec"
 	"path/filepath"
 	"runtime"
+	"sync"
 	"testing"
 	"time"
 
@@ -83,9 +84,26 @@ func (r *fragReader) Read(p []byte) (int, error) {
 
 func genCase(t *rapid.T) Case {
 	var c Case
+	wide := false
 	c.Sizes = gen.ChunkSizes(t, true)
 	if !hx.Thorough() && c.Sizes.Max > 16384 {
 		c.Sizes = gen.Sizes{Min: 64, Avg: 256, Max: 1024}
+	}
+	if rapid.IntRange(0, 7).Draw(t, "wideavg") == 0 {
+		// averages far from the usual small ones, half of them values at which the discriminator
+		// formula is sensitive to floating point precision; min stays small so that a few
+		// hundred KB of data hold several hash-determined cuts
+		lim := uint64(hx.Pick(60_000, 1<<20))
+		avg := 48 + rapid.Uint64().Draw(t, "avgbits")%(lim-48)
+		if rapid.Bool().Draw(t, "sensitive") {
+			sens := sensitiveAvgs()
+			avg = sens[rapid.Uint64().Draw(t, "sensidx")%uint64(len(sens))]
+		}
+		c.Sizes = gen.Sizes{Min: 48 + rapid.Uint64().Draw(t, "minbits")%16, Avg: avg, Max: avg*4 + uint64(rapid.IntRange(0, 100).Draw(t, "dmaxw"))}
+		if c.Sizes.Min > avg {
+			c.Sizes.Min = avg
+		}
+		wide = true
 	}
 	if hx.Thorough() && rapid.IntRange(0, 24).Draw(t, "defaultsizes") == 0 {
 		c.Sizes = gen.Sizes{Min: 16 << 10, Avg: 64 << 10, Max: 256 << 10} // the CLI's default 16:64:256
@@ -102,7 +120,16 @@ func genCase(t *rapid.T) Case {
 		maxLen = 12 << 20
 	}
 	shape := rapid.IntRange(0, 9).Draw(t, "shape")
+	if wide {
+		shape = 100
+	}
 	switch {
+	case shape == 100:
+		n := int(c.Sizes.Avg) * rapid.IntRange(3, 8).Draw(t, "wmult")
+		if lim := hx.Pick(400_000, 6_000_000); n > lim {
+			n = lim
+		}
+		c.Pieces = []gen.Piece{{Kind: "rand", Len: n, Seed: rapid.Uint64().Draw(t, "ws")}}
 	case shape <= 3:
 		c.Pieces = gen.Pieces(t, maxLen, mn, mn+1, mx, mx/2, 48)
 	case shape == 5: // zero run crossing worker starts: prefix, k*max(+-1) zeros, suffix
@@ -177,6 +204,14 @@ func genCase(t *rapid.T) Case {
 	c.StreamN = rapid.IntRange(1, 8).Draw(t, "streamn")
 	c.CLI = hx.Thorough() && os.Getenv("VERIF_DESYNC_BIN") != "" && rapid.IntRange(0, 30).Draw(t, "cli") == 0
 	return c
+}
+
+var sensOnce sync.Once
+var sensList []uint64
+
+func sensitiveAvgs() []uint64 {
+	sensOnce.Do(func() { sensList = ref.SensitiveAvgs(48, uint64(hx.Pick(60_000, 1<<20))) })
+	return sensList
 }
 
 func max0(n int) int {
@@ -443,6 +478,12 @@ func run(c Case) (o hx.Outcome) {
 	if degenerate {
 		o.Class("min=max")
 	}
+	if sz.Avg >= 11000 {
+		o.Class("avg>=11000")
+		if ref.Discriminator(sz.Avg) != uint32(float32(sz.Avg)/(float32(-1.42888852e-7)*float32(sz.Avg)+float32(1.33237515))) {
+			o.Class("avg:precision-sensitive")
+		}
+	}
 	if sz.Max == 256<<10 {
 		o.Class("default-sizes-16:64:256")
 	}
@@ -517,7 +558,7 @@ var spec = &hx.Spec[Case]{
 	Rule: "cases = (blob from pieces: random/zero runs/constant/periodic/repeats at lengths around multiples of min, max and of size/n; (min,avg,max) incl. min=max; worker counts; read fragmentation vector; perturbation vectors for the pchunk.* hook sites); " +
 		"oracle = independent reference chunker (direct 48-byte window buzhash); non-trivial = effective worker count >= 2 and ChunksProduced > ChunksAccepted+1 (workers really overlapped); distinct by (length, sizes, ns, fragmentation, content hash)",
 	Assumptions: []string{"reference chunker reproduces casync's chunker.index (self test)", "schedules are sampled via hook-site perturbation, not enumerated", "buzhash table copied from casync at authoring time"},
-	Required:    []string{"controlled-schedule", "zero-run>=3max", "constant-data", "periodic-data", "size<max", "size-0", "effective-n>=2", "workers-overlapped", "fragmented-reads", "span%max==0", "span%max==max/2"},
+	Required:    []string{"avg>=11000", "avg:precision-sensitive", "controlled-schedule", "zero-run>=3max", "constant-data", "periodic-data", "size<max", "size-0", "effective-n>=2", "workers-overlapped", "fragmented-reads", "span%max==0", "span%max==max/2"},
 	Gen:         genCase,
 	Run:         run,
 	Journal:     true,
